@@ -58,7 +58,7 @@ InitWorld ==
 
 VARIABLES w, last, steps
 vars == <<w, last, steps>>
-View == w                       \* history / observation variables stay out of the fingerprint
+View == <<w, steps>>         \* the observation variable `last` stays out of the fingerprint
 
 NoEv == [op |-> [op |-> "none", caller |-> "none"], res |-> [ok |-> FALSE, why |-> "", events |-> <<>>]]
 
